@@ -256,8 +256,16 @@ func (ex *Exec) applyContract(st *State, c *Contract, args []*Val, sig *types.Si
 			vars[rn[k]] = v
 		}
 	}
+	before := st.lines[:len(st.lines):len(st.lines)]
 	for _, e := range c.Ensures {
 		st.assume(env.evalBool(e))
+	}
+	if c.Kind != "func" && len(c.Ensures) > 0 {
+		// relative vacuity: an assumed contract must not make a feasible path infeasible
+		name := fmt.Sprintf("%s#cover:after:%s@%s", shortFn(ex.topKey), calleeShort, site)
+		ex.oblCount[name]++
+		ex.obls = append(ex.obls, &Obligation{Name: name, Fn: ex.topKey, Class: "cover-call", Tags: ex.top.Tags, Lines: st.lines[:len(st.lines):len(st.lines)], Before: before, Goal: tTrue, Cover: true,
+			Desc: "the assumed contract of " + calleeShort + " is consistent with the state at this call", Trace: append([]string(nil), st.trace...), Inst: ex.oblCount[name]})
 	}
 	return res
 }
